@@ -40,7 +40,8 @@ CHECKS['C06'] = dict(
     text='Structural iff: every acos is guarded by the closed interval [-1,1] on exactly its own argument, guarded branch Ok / other Err, '
          'no other validity source, sunrise/sunset share one guard, policy None preserves validity in every skeleton world. '
          'That |cos H| > 1 matches the astronomical truth to 0.05 deg is numeric: not decided.'
-         ' Includes the Imsaak builder rules (R6.5): Imsaak is the rerun\'s Fajr and the minutes fallback applies only to a replaced Fajr.',
+         ' Includes the Imsaak builder rules (R6.5): Imsaak is the rerun\'s Fajr and the minutes fallback applies only to a replaced Fajr.'
+         ' R6.6 includes the Julian-Day century rule (validity is decided from the declination of the requested date).',
     note=ASSUME,
     technique='guard/argument identity on reconstructed terms + skeleton worlds')
 CHECKS['C11'] = dict(
@@ -59,7 +60,8 @@ CHECKS['C14'] = dict(
     text='Structural clauses: inclusive day count (end-start)+1 whose signed->unsigned cast is clamped at 0; the range API iterates '
          'start.iter_days().take(num_days()), calls the single-date API with unchanged params for exactly that date and stores it under '
          'that date; partition blocks are [s, min(s+B-1,end)], next start s+B, B = ceil(days/count), guard s <= end. '
-         '`at most max(k,1) parts` is arithmetic on runtime sizes: not decided.',
+         '`at most max(k,1) parts` is arithmetic on runtime sizes: not decided.'
+         ' R14.1 also requires that a negative day difference is clamped, not folded by an absolute value; R14.2 accepts a range API that does not call the single-date API if every stored value is that API\'s own value term for its date.',
     note=ASSUME + '; chrono date arithmetic',
     technique='abstract interpretation of the range functions + linear-form / lower-bound checks on the reconstructed terms')
 CHECKS['C15'] = dict(
@@ -75,7 +77,8 @@ CHECKS['C16'] = dict(
     text='Decides on the reconstructed constructor term: full-circle image (atan2 then degrees), no dependence on elevation, the two Kaaba '
          'constants, east/west antisymmetry (parity domain) and sign convention, rotation label = sign of the same field, Display prints '
          '|degrees| and the label. The 1e-6 degree agreement is numeric: not decided.'
-         ' R16.6: a remainder/wrap applied to the longitude difference has a period that is a multiple of 360 deg.',
+         ' R16.6: a remainder/wrap applied to the longitude difference has a period that is a multiple of 360 deg.'
+         ' R16.1 also requires the bearing to be atan2 itself (a negated atan2 has the half-open image on the wrong side).',
     note=ASSUME + '; atan2 image (-pi, pi]',
     technique='interval + parity abstract domains and dependence on the reconstructed bearing term')
 CHECKS['C19'] = dict(
@@ -83,7 +86,8 @@ CHECKS['C19'] = dict(
          'method/start/end wiring with documented defaults, parsing dominates the library call, file route through from_str::<ParamsConfig>, '
          'serialised/listed value is the library result of the one ParamsConfig, -p file is that same ParamsConfig. '
          'JSON bytes, exit codes, terminal text are clap/serde/std semantics: not decided.'
-         ' Includes the construction discipline of the validated types (R18.1-R18.5), a premise of the rejection clause.',
+         ' Includes the construction discipline of the validated types (R18.1-R18.5), a premise of the rejection clause.'
+         ' Also includes C17\'s conversion/printing rules (the listing prints the Hijri date of every day).',
     note=ASSUME + '; clap derive uses the field type\'s FromStr (C18); serde derive symmetry',
     technique='field-type + value-flow (wiring) analysis by abstract interpretation of the bin crate\'s MIR')
 CHECKS['C02'] = dict(
@@ -142,7 +146,8 @@ CHECKS['C17'] = dict(
          'table over 12 month numbers x leap), euclidean 30-year leap rule (valid before the epoch), weekday = (day number mod 7)+1 in 1..=7, '
          'before-Hijra mapping, number->enum tables vs declared discriminants, accessor/Display wiring incl. the B.H./A.H. suffix, '
          'construction only by From<NaiveDate>, failure-site inventory of conversion and printing. Day-for-day equality on each of the '
-         '3,652,059 dates, the initial year estimate and integer-overflow checks are arithmetic over runtime values: not decided.',
+         '3,652,059 dates, the initial year estimate and integer-overflow checks are arithmetic over runtime values: not decided.'
+         ' R17.14: every floor is taken of an exactly computed integer quotient (no inexact f64 sum or reciprocal product that can fall below an integer it should reach).',
     note=ASSUME + '; dates of the common era (year() >= 1); all formula atoms are integers; atoms of a normal form are independent',
     technique='abstract interpretation of the conversion + reference-formula comparison on polynomial normal forms, loop guard/step rules, '
               'finite truth tables, panic-site inventory')
@@ -151,6 +156,7 @@ CHECKS['C20'] = dict(
          'coefficient exactly -1/24 (+1 in the day of month) in every branch of the constructor; the GMT offset is converted to a number only '
          'inside that constructor among all functions reachable from prayer_times_dt; every linear form that combines the longitude with the '
          'sidereal time and the right ascension (transit fraction, hour angles, topocentric hour angle) is k*(sidereal + longitude - RA). '
-         'The 10-second agreement, the validity clause and the ephemeris itself are numeric relations between outputs: not decided.',
+         'The 10-second agreement, the validity clause and the ephemeris itself are numeric relations between outputs: not decided.'
+         ' R20.5: no thread-local, static or lock-protected state on the computation path (the result is a function of the arguments). Includes the Julian-Day rule, the seam hygiene R1.2 and the clock-time conversion rules R11.4/R11.7.',
     note=ASSUME + '; east longitudes positive; sidereal-time / right-ascension fields recognised from the per-day constructor (360.98564736629 deg/day; atan2)',
     technique='polynomial normal forms (coefficient extraction) on reconstructed terms + who-may-call query on the call graph')
